@@ -762,7 +762,8 @@ def map_instances(ts, mode):
         else:
             rows = [o[1] for s, p, o in ts if p == it[2] and (it[1] is None or s == ("I", it[1]))]
         for n in rows:
-            inst.setdefault(n, []).append(label)
+            if label not in inst.setdefault(n, []):      # a node answered several times carries the label once (9a400c9)
+                inst[n].append(label)
     return inst
 
 
